@@ -88,11 +88,11 @@ def gen_cases(chk):
         shapes2 = list(gensql.enumerate_shapes(2))
         seen = {repr(s) for _, s in shapes}
         extra = [(n, s) for n, s in shapes2 if repr(s) not in seen]
-        shapes = shapes[::3] + chk.rng.sample(extra, min(150, len(extra)))
+        shapes = shapes[::4] + chk.rng.sample(extra, min(120, len(extra)))
     else:
         shapes = chk.rng.sample(shapes, 110)
     cases += [("shape:" + n, s) for n, s in shapes]
-    n_rand = 640 if thorough else 190
+    n_rand = 520 if thorough else 190
     for prof, allow, share in PROFILES:
         R = gensql.Rand(chk.rng, max_depth=3 if thorough else 2, allow=allow)
         for i in range(int(n_rand * share)):
